@@ -363,7 +363,11 @@ class Gen:
             ks = self.keys(model)
             good = [self.frag(model, q) for q in r.sample(ks, min(len(ks), r.randint(0, 4)))]
             pos = r.randint(0, len(good))
-            bad = af if (r.random() < 0.7 or not good) else dict(r.choice(good))
+            if r.random() < 0.7 or not good:
+                bad = af
+            else:
+                # the same hyperedge named twice, usually with its nodes listed in another order
+                bad = self.frag(model, model.key(r.choice(good)))
             es = good[:pos] + [bad] + good[pos:]
             return {"op": "remove_edges", "es": [f["e"] for f in es], "_badpos": pos}
         if what == "remove_nodes_bad":
@@ -669,6 +673,8 @@ def simplify_ops(case):
     ops = case["ops"]
     for i, op in enumerate(ops):
         for fld in ("md", "form", "pos"):
+            if fld == "md" and op["op"] not in ("add_node", "add_edge"):
+                continue
             if fld in op and op[fld]:
                 c = json.loads(json.dumps(case))
                 del c["ops"][i][fld]
